@@ -65,6 +65,12 @@ fn check_tx(r: &Report, t: &RTx, tag: &str) {
             if dw != exp_dw {
                 r.violation(format!("discount-weight/{}", shape), case(), format!("discount_weight()={} reference={}", dw, exp_dw));
             }
+            // the per-output proof length accessors used by the discount computation
+            for (j, (o, ro)) in lib.output.iter().zip(t.outs.iter()).enumerate() {
+                if o.witness.rangeproof_len() != ro.rp.len() || o.witness.surjectionproof_len() != ro.surj.len() {
+                    r.violation(format!("proof-len/{}", shape), case(), format!("output {}: rangeproof_len()={} (serialized {}), surjectionproof_len()={} (serialized {})", j, o.witness.rangeproof_len(), ro.rp.len(), o.witness.surjectionproof_len(), ro.surj.len()));
+                }
+            }
             if dvs != (exp_dw + 3) / 4 {
                 r.violation(format!("discount-vsize/{}", shape), case(), format!("discount_vsize()={} reference={}", dvs, (exp_dw + 3) / 4));
             }
